@@ -35,6 +35,7 @@ def consts_of(dtype: str) -> List[Any]:
 
 
 DTYPES = ["int64", "float64", "timedelta64[ns]", "datetime64[ns]"]
+KINDS = ["series", "frame", "index", "regex", "framecheck", "series_idx", "mi_unique"]
 
 
 def rank(v: Any, consts: List[Any]) -> int:
@@ -140,7 +141,7 @@ def _one(job):
         consts = None
         cont = {"nullable": False, "unique": False, "size": 2}
     else:
-        dtype = DTYPES[(idx // 4) % 4] if tier == "quick" else DTYPES[idx % 4]
+        dtype = DTYPES[(idx // 7) % 4] if tier == "quick" else DTYPES[idx % 4]
         consts = consts_of(dtype)
         checks = [mk_check(c, consts, pa) for c in vec["chain"]]
         cont = vec["cont"]
@@ -153,6 +154,22 @@ def _one(job):
         elif kind == "frame":
             schema = pa.DataFrameSchema({"a": pa.Column(dtype, checks=checks, nullable=cont["nullable"], unique=cont["unique"]),
                                          "b": pa.Column(int)}, index=pa.Index(int, unique=True, name="i"))
+            get = lambda d: d["a"]  # noqa: E731
+        elif kind == "series_idx":
+            # a SeriesSchema that also constrains its index
+            schema = pa.SeriesSchema(dtype, checks=checks, nullable=cont["nullable"], unique=cont["unique"], name="a",
+                                     index=pa.Index(int, pa.Check.ge(0), name="i"))
+            get = lambda d: d  # noqa: E731
+        elif kind == "mi_unique":
+            # the index is a MultiIndex whose two levels are jointly unique
+            schema = pa.DataFrameSchema({"a": pa.Column(dtype, checks=checks, nullable=cont["nullable"], unique=cont["unique"])},
+                                        index=pa.MultiIndex([pa.Index(int, pa.Check.in_range(0, 2), name="p"),
+                                                             pa.Index(int, pa.Check.in_range(0, 2), name="q")], unique=["p", "q"]))
+            get = lambda d: d["a"]  # noqa: E731
+        elif kind == "framecheck":
+            # the LAST check of the chain is declared at dataframe level (it applies to every column: there is only "a")
+            schema = pa.DataFrameSchema({"a": pa.Column(dtype, checks=checks[:-1], nullable=cont["nullable"], unique=cont["unique"])},
+                                        checks=checks[-1:])
             get = lambda d: d["a"]  # noqa: E731
         elif kind == "index":
             schema = pa.DataFrameSchema({"b": pa.Column(int)}, index=pa.Index(dtype, checks=checks, nullable=False,
@@ -189,6 +206,14 @@ def _one(job):
                     rec["validator"] = "raises:" + type(e).__name__
                 if kind == "regex":
                     rec["n_columns"] = int(d.shape[1])
+                    # every generated column is a draw of the same chain: the other columns are judged too
+                    if consts is not None:
+                        rec["other_columns"] = []
+                        for cname in list(d.columns)[1:]:
+                            ovals = list(d[cname])
+                            rec["other_columns"].append({"ranks": [rank(v, consts) for v in ovals],
+                                                         "has_duplicates": bool(pd.Series(ovals).duplicated().any()),
+                                                         "values": [str(v) for v in ovals][:6]})
                     # the null mask may have hit the other generated column: container-level facts over all of them
                     rec["has_null"] = bool(d.isna().any().any())
                     if any(str(t) == "float64" for t in d.dtypes):
@@ -214,11 +239,11 @@ def main(argv: List[str]) -> int:
         if v["kind"] == "strategy_str":
             kinds = [["series", "frame"][i % 2]]
         elif tier == "quick":
-            kinds = [["series", "frame", "index", "regex"][i % 4]]
+            kinds = [KINDS[i % 7]]
         elif len(v.get("chain", [])) >= 3:
-            kinds = [["series", "frame", "index", "regex"][i % 4]]
+            kinds = [KINDS[i % 7]]
         else:
-            kinds = [["series", "frame", "index", "regex"][i % 4], ["series", "frame", "index", "regex"][(i + 2) % 4]]
+            kinds = [KINDS[i % 7], KINDS[(i + 3) % 7]]
         jobs += [(i, v, tier, seed, k) for k in kinds]
     ctx = mp.get_context("fork")
     nproc = int(os.environ.get("VERIF_NPROC", "16"))
